@@ -25,6 +25,10 @@
      [f.name for f in fields if f.init and '__'+f.name not in locals and no default]`
      and MissingFields.__init__ with that list: `fields = [f.name for f in cls_fields
      if f.name not in missing and f.init and no default]`.
+   Keyword-only fields: the Section variable `kwonly cn fn`; irrelevant for the default engine,
+   but the v1 engine passes required fields positionally, so a class with a required
+   keyword-only field yields a bare TypeError (EBareType, finding F43), which an enclosing v1
+   level wraps into ParseError (v1_reraise).
    Per-field leaf conversion is the Section variable `conv` (None = ParseError).
    Keys are matched by exact field name (the complete document of C09 uses the field
    names; key spelling is C08/C10); keys that are no init field are skipped.
@@ -57,7 +61,8 @@ Inductive engine := V0 | V1.
 Inductive err :=
   | EMissingFields (cn : pstr) (provided missing : list pstr)
   | EParse (cn fn : pstr)          (* leaf conversion failed / wrong shape for a field *)
-  | EShape (cn : pstr).            (* the object given for a dataclass is not a dict *)
+  | EShape (cn : pstr)             (* the object given for a dataclass is not a dict *)
+  | EBareType (cn : pstr).         (* a bare TypeError raised by cn.__init__ escapes the loader *)
 
 Inductive res (A : Type) := Ok (a : A) | Err (e : err).
 Arguments Err {A} e.
@@ -65,6 +70,10 @@ Arguments Err {A} e.
 Section Fields.
 Variables ty raw V : Type.
 Variable conv : ty -> raw -> option V.
+(* declaration attribute: field `fn` of class `cn` is keyword-only (field(kw_only=True) or
+   @dataclass(kw_only=True)).  Irrelevant for the default engine, which calls
+   cls( **init_kwargs); the v1 engine passes the required fields POSITIONALLY. *)
+Variable kwonly : pstr -> pstr -> bool.
 
 Inductive dflt := Required | Default (v : V) | Factory (fid : N).
 
@@ -223,7 +232,13 @@ Definition has_default (d : dflt) : bool := negb (is_required d).
 
 (* the generated per-field statements; `bound` = the local variables __name that got
    assigned, `kw` = init_kwargs *)
-Fixpoint v1_loop (ps : list (pstr * parser)) (fs : list (fdecl cls)) (o : list (pstr * jv))
+(* re_raise(e, cls, o, fields, field, value): a library error passes through unchanged; any
+   other exception (here: the bare TypeError of a nested constructor, F43) is wrapped into a
+   ParseError attributed to this class and field *)
+Definition v1_reraise (cn fn : pstr) (e : err) : err :=
+  match e with EBareType _ => EParse cn fn | _ => e end.
+
+Fixpoint v1_loop (cn : pstr) (ps : list (pstr * parser)) (fs : list (fdecl cls)) (o : list (pstr * jv))
          (bound kw : list (pstr * pv)) (n : N)
   : res (list (pstr * pv) * list (pstr * pv)) * N :=
   match fs with
@@ -235,13 +250,13 @@ Fixpoint v1_loop (ps : list (pstr * parser)) (fs : list (fdecl cls)) (o : list (
             match p v n with
             | (Ok x, n1) =>
                 if has_default (fdef f)
-                then v1_loop ps r o bound (dict_set (fname f) x kw) n1
-                else v1_loop ps r o (dict_set (fname f) x bound) kw n1
-            | (Err e, n1) => (Err e, n1)     (* re_raise: a library error passes through *)
+                then v1_loop cn ps r o bound (dict_set (fname f) x kw) n1
+                else v1_loop cn ps r o (dict_set (fname f) x bound) kw n1
+            | (Err e, n1) => (Err (v1_reraise cn (fname f) e), n1)
             end
-        | _, _ => v1_loop ps r o bound kw n    (* o.get(name, MISSING) is MISSING *)
+        | _, _ => v1_loop cn ps r o bound kw n    (* o.get(name, MISSING) is MISSING *)
         end
-      else v1_loop ps r o bound kw n
+      else v1_loop cn ps r o bound kw n
   end.
 
 (* check_and_raise_missing_fields *)
@@ -261,9 +276,19 @@ Definition positional {C} (fs : list (fdecl C)) : list (fdecl C) :=
 Definition all_bound {C} (fs : list (fdecl C)) (bound : list (pstr * pv)) : bool :=
   forallb (fun f => has_key (fname f) bound) (positional fs).
 
+(* some required init field is keyword-only *)
+Definition kw_required {C} (cn : pstr) (fs : list (fdecl C)) : bool :=
+  existsb (fun f => finit f && is_required (fdef f) && kwonly cn (fname f)) fs.
+
 Definition v1_finish (cn : pstr) (fs : list (fdecl cls)) (bound kw : list (pstr * pv)) (n : N)
   : res pv * N :=
   if all_bound fs bound then
+    if kw_required cn fs then
+      (* cls(__a, __k, ...): a keyword-only parameter never receives its value; CPython
+         raises TypeError (too many positional arguments / multiple values / missing
+         keyword-only argument), which the generated code does not catch (finding F43) *)
+      (Err (EBareType cn), n)
+    else
     match construct cn fs (bound ++ kw) n with
     | Some (i, n') => (Ok i, n')
     | None => (Err (EShape cn), n)     (* unreachable: every required argument is bound *)
@@ -276,7 +301,7 @@ Definition v1_body (cn : pstr) (fs : list (fdecl cls)) (ps : list (pstr * parser
   fun d n =>
   match d with
   | JDict o =>
-      match v1_loop ps fs o [] [] n with
+      match v1_loop cn ps fs o [] [] n with
       | (Ok (bound, kw), n1) => v1_finish cn fs bound kw n1
       | (Err e, n1) => (Err e, n1)
       end
@@ -416,6 +441,20 @@ Definition spec_body (e : engine) (cn : pstr) (fs : list (fdecl cls))
 Fixpoint spec (e : engine) (c : cls) : sparser :=
   match c with
   | Cls cn fs => spec_body e cn fs (sparsers_of (spec e) cn fs)
+  end.
+
+(* region of finding F43: the v1 engine and a class (at any depth) with a required
+   keyword-only init field *)
+Fixpoint kw_safe (e : engine) (c : cls) : bool :=
+  match e with
+  | V0 => true
+  | V1 =>
+      match c with
+      | Cls cn fs =>
+          negb (kw_required cn fs) &&
+          forallb (fun f => match fkind f with
+                            | KLeaf _ => true | KNested c' => kw_safe e c' | KList c' => kw_safe e c' end) fs
+      end
   end.
 
 (* ---- the documents the property quantifies over ------------------------------- *)
